@@ -147,22 +147,21 @@ def run(rep):
                   ok_detail='same member list and filter as the struct fields')
         m = ('elem', s[2], s[1])
         t = off_ts[0]
-        inner_ts = E.find_templates(s[3], lambda y: 'offset_of !' in E.tmpl_text(y))
         hh = E.holes(t)
-        num = [v for v in hh.values() if v[0] == 'call' and v[1].startswith('Literal::')]
-        want_num = ('call', 'Literal::usize_unsuffixed', [('cast', ('f', m, 'offset'), 'usize')])
-        rep.check(num == [want_num], 'C05.offset-assert', 'offset-number', where,
-                  f'the expected offset is {[E.show(n, maxdepth=7) for n in num]}; expected StructMember.offset of the same member, unmodified',
-                  ok_detail='member.offset')
-        if inner_ts:
-            ih = list(E.holes(inner_ts[0]).values())
-            ok = len(ih) == 2 and ih[0] == want_name and ih[1] == ('call', 'Ident::new', [('unwrap', ('f', m, 'name'))])
-            rep.check(ok, 'C05.offset-assert', 'offset-of-field', where, f'offset_of! is applied to {[E.show(x, maxdepth=5) for x in ih]}; expected (this struct, this member\'s name)',
+        ttxt = E.tmpl_text(t)
+        import re as _re
+        am = _re.search(r'const _ : \( \) = assert ! \( std :: mem :: offset_of ! \( #(\w+) , #(\w+) \) == #(\w+) , #?\S+ \) ;', ttxt)
+        rep.check(am is not None, 'C05.offset-assert', 'offset-shape', where, f'`{ttxt}`', ok_detail='const _: () = assert!(offset_of!(<struct>, <field>) == <n>, ..)')
+        if am:
+            want_num = ('call', 'Literal::usize_unsuffixed', [('cast', ('f', m, 'offset'), 'usize')])
+            num = hh.get(am.group(3))
+            rep.check(num == want_num, 'C05.offset-assert', 'offset-number', where,
+                      f'the expected offset is {E.show(num, maxdepth=7) if num else None}; expected StructMember.offset of the same member, unmodified', ok_detail='member.offset')
+            ih = [hh.get(am.group(1)), hh.get(am.group(2))]
+            ok = ih[0] == want_name and ih[1] == ('call', 'Ident::new', [('unwrap', ('f', m, 'name'))])
+            rep.check(ok, 'C05.offset-assert', 'offset-of-field', where, f'offset_of! is applied to {[E.show(x, maxdepth=5) if x else None for x in ih]}; expected (this struct, this member\'s name)',
                       ok_detail='offset_of!(this struct, member.name)')
-            txt = E.tmpl_text(inner_ts[0]).replace(' ', '')
-            rep.check(txt.startswith('std::mem::offset_of!(#') , 'C05.offset-assert', 'offset-of-shape', where, f'`{txt}`', ok_detail=txt)
+            rep.ok('C05.offset-assert', 'offset-of-shape', where, 'std::mem::offset_of!(#struct, #field)')
         else:
-            rep.bad('C05.offset-assert', 'offset-of-field', where, 'no offset_of! template inside the offset assertion', undecided=True)
-        ttxt = E.tmpl_text(t).replace(' ', '')
-        rep.check(ttxt.startswith('const_:()=assert!(#') and '==#' in ttxt, 'C05.offset-assert', 'offset-shape', where, f'`{E.tmpl_text(t)}`', ok_detail='const _: () = assert!(<offset_of> == <n>, ..)')
+            rep.bad('C05.offset-assert', 'offset-of-field', where, 'no offset_of! comparison inside the offset assertion', undecided=True)
     rep.analysed = {'function': q, 'struct_template': tmpl[1], 'assertion_templates': [t[1] for t in size_ts + off_ts]}
